@@ -8,7 +8,7 @@ use crate::refmodel::{self, RunFail};
 use crate::report::{self, Report, Violation};
 use serde_json::json;
 
-const IDENTS: [(&str, bool); 16] = [
+const IDENTS: [(&str, bool); 18] = [
     ("_id", false),
     ("_created_at", false),
     ("user_id", false),
@@ -25,6 +25,9 @@ const IDENTS: [(&str, bool); 16] = [
     ("val", false),
     ("func", false),
     ("object", false),
+    // a digit directly followed by a letter inside one word (serde starts a new word at `_` only)
+    ("k8s_namespace", false),
+    ("field_2fa", false),
 ];
 const RENAMES: [Option<&str>; 6] = [None, Some("renamed"), Some("with-dash"), Some("camelCased"), Some("_lead"), Some("x-y-z")];
 const RULES: [Option<&str>; 10] = [
